@@ -508,6 +508,29 @@ PROPS["C06"] = {
                  + _pick("C14", {"c14_hasher_step_3", "c14_hasher_two_1_2", "c14_replace_2"}),
 }
 
+# ------------------------------------------------------------------------------------------------
+MDC_F = ["crypto::sym::decryptor::StreamDecryptorInner::<Aes128,&[u8]>::{finalize_data,fill_inner,read}", "sha1::Sha1::{update,finalize} (compression stubbed)"]
+PROPS["C03"] = {
+    "inject": [("src/crypto/sym/decryptor.rs", "c03_mdc")],
+    "mem_gb": 14,
+    "level_text": "Bounded model checking of the last step of the real SEIPDv1 stream decryptor: from the state 'all ciphertext read and decrypted' "
+                  "(built by struct literal) with 22 arbitrary trailing octets, the solver shows finalize_data accepts exactly D3 14 || digest, "
+                  "that a refusal leaves the reader in its error state, and that every read from the error state fails.",
+    "level_note": "NARROW: covers only the MDC decision and the stickiness of the error state of sym::StreamDecryptorInner (instantiation Aes128 over &[u8], "
+                  "check-first and streaming modes, 2 plaintext octets). SHA-1 compression is a no-op, so the digest is a constant: that the digest covers "
+                  "prefix and plaintext, truncation/extension at other offsets, the CheckFirst buffering, and everything about SEIPDv2 (aead::StreamDecryptor: "
+                  "BytesMut split_to/unsplit state machine, no verdict even on a 33-octet stream) are NOT covered.",
+    "bounds": "2 plaintext octets + 22 symbolic MDC octets; consumer buffer 0..4 for the error-state reads",
+    "outside": "SEIPDv2 entirely; data-dependence of the digest; fill_data (reading, buffering, size cap); message-level trailing-data check",
+    "assumptions": [FMT_STUBS, "sha1::compress::compress is a no-op (digest = SHA-1 initial state); AES-128 key schedule real on a fixed key; state constructed directly, "
+                    "not reached through fill_data"],
+    "harnesses": [
+        H("c03_mdc_decision_streaming", "c03_mdc", "quick", 900, "streaming mode: finalize_data on 2 data octets + 22 arbitrary octets: Ok iff tag D3, length 14 and all 20 digest octets match; Ok => Done with exactly the data; Err => Error state", MDC_F, "22 symbolic MDC octets, 2 symbolic data octets"),
+        H("c03_mdc_decision_check_first", "c03_mdc", "quick", 900, "same in check-first mode", MDC_F, "22 symbolic MDC octets, 2 symbolic data octets"),
+        H("c03_error_state_is_sticky", "c03_mdc", "quick", 300, "read()/fill_inner() from the error state: always Err, state unchanged (no clean end of stream, no octet released)", MDC_F, "consumer buffer length symbolic 0..4"),
+    ],
+}
+
 # C04 also runs the hostile-input parser harnesses of C17/C05/C10: every one of them feeds arbitrary octets to a real
 # parser and Kani reports any reachable panic (index, slice, overflow, unwrap, unreachable) as a failed check, so
 # each is at the same time a no-panic / termination verdict for that parser at that input length.
